@@ -43,7 +43,7 @@ inline std::string hx(uint8_t v) { char b[8]; snprintf(b, sizeof b, "0x%02X", v)
 inline std::string hx2(uint8_t h, uint8_t l) { char b[12]; snprintf(b, sizeof b, "0x%02X%02X", h, l); return b; }
 
 inline std::string board_yaml(const World &w) {
-	std::string s = "# generated\nboards:\n";
+	std::string s = w.boards.empty() ? "# generated\nboards: []\n" : "# generated\nboards:\n";
 	for (auto &b : w.boards) {
 		s += "  - id: " + b.id + "\n    unique-id: 0x" ; { char t[20]; for (int i = 0; i < 7; i++) { snprintf(t, sizeof t, "%02X", b.uid[i]); s += t; } } s += "\n";
 		if (!b.features.empty()) {
@@ -322,6 +322,14 @@ inline void install(J &plan, const World &w, Rng &r) {
 	J cfgs = J::arr(); J c = J::obj(); c.set("board", board_yaml(w)); c.set("track", track_yaml(w)); c.set("train", train_yaml(w)); cfgs.push(c);
 	plan.set("configs", cfgs);
 	plan.set("world", to_json(w));
+}
+
+// a world without any configured equipment: every node of `tree` is unknown to the configuration (normal-mode runs of the
+// transmission properties: the start-up dialogue, sequence numbering and capacity handling are active, the state layer stays idle)
+inline World bare_world(const std::vector<pc::TreeNode> &tree) {
+	World w; w.iface_configured = false;
+	for (auto &t : tree) { Unknown u; u.addr = t.addr; memcpy(u.uid, t.uid, 7); w.unknown.push_back(u); }
+	return w;
 }
 
 // starvation of a library thread must not cover the start-up handshake (its 250 ms probe window is a legitimate timeout)
